@@ -53,12 +53,21 @@ struct act_t {
     int code;
 };
 
+// the future a scripted source awaits; lets the second thread see whether the source coroutine has really
+// subscribed (i.e. is suspended on it), so that its continuation runs on the resolving thread
+struct probe_future : future<int> {
+    bool has_awaiter() const {
+        auto a = _awaiter.load(std::memory_order_acquire);
+        return a != nullptr && a != &awaiter::instance && a != &awaiter::disabled;
+    }
+};
+
 struct src_t {
     int idx = 0;
     std::vector<act_t> pre, cyc;
     std::atomic<int> pos{0};      // acts executed
     int ny = 0;                   // yields so far
-    std::unique_ptr<future<int>> fut;
+    std::unique_ptr<probe_future> fut;
     promise<int> prom;
     std::atomic<bool> awaiting{false};
     std::atomic<bool> ended{false};   // the body returned or threw
@@ -78,7 +87,7 @@ struct src_t {
         arglog->push_back({idx, a});
     }
     void arm() {
-        fut.reset(new future<int>());
+        fut.reset(new probe_future());
         prom = fut->get_promise();
         awaiting.store(true, std::memory_order_release);
     }
@@ -275,7 +284,8 @@ struct case_runner {
     void helper_begin() { helper_deadline = std::chrono::steady_clock::now() + std::chrono::seconds(1); }
     bool helper_resolve(int k) {
         for (;;) {
-            if (srcs[k]->awaiting.load(std::memory_order_acquire)) return srcs[k]->resolve();
+            if (srcs[k]->awaiting.load(std::memory_order_acquire) && srcs[k]->fut->has_awaiter())
+                return srcs[k]->resolve();
             if (std::chrono::steady_clock::now() > helper_deadline) return false;
             std::this_thread::sleep_for(std::chrono::microseconds(50));
         }
